@@ -8,7 +8,13 @@ open Huginn.Drv Huginn.Tls
 /-- The concrete parser the driver plugs into the reader model (the theorems hold for any). -/
 def parse (b : Bytes) : PR Signature := parseClientHello knownBodyOk b
 
-def ja4Of (s : Signature) : String := String.ofList (generateJa4 Huginn.Sha256.sha256 s false).full
+/-- the harness prints fingerprints with everything outside `!`..`~` (and `\\`) escaped as `\\u{hex}` -/
+def esc (l : List Char) : String :=
+  String.join (l.map (fun c =>
+    if '!' ≤ c ∧ c ≤ '~' ∧ c ≠ '\\' then c.toString
+    else "\\u{" ++ String.ofList (Nat.toDigits 16 c.toNat) ++ "}"))
+
+def ja4Of (s : Signature) : String := esc (generateJa4 Huginn.Sha256.sha256 s false).full
 
 def showOut : Out Signature → String
   | .none => "-"
